@@ -454,9 +454,11 @@ func c13(c *Ctx) {
 					sawKey = true
 				} else if derivesFromParam(a, contentP) && !derivesFromParam(a, keyP) {
 					sawContent = true
-				} else {
+				} else if derivesFromParam(a, contentP) && derivesFromParam(a, keyP) {
 					okOps = false
 				}
+				// an operand that comes from neither (a limit held by the validator, a logger) is
+				// not part of the key/content pairing
 			}
 			r.Check(okOps && sawKey && sawContent, "R2.final-gates", fmt.Sprintf("%s proof-#%d-operands", name, i+1), p.Pos(pc.Pos()), "hash/path operands come from the key, the proof from the content", "the proof check mixes up key and content operands")
 		}
